@@ -6,12 +6,14 @@
                     `ZincImageLex`, `ZincImageParse`): ids over their alphabets, capitalised XStr types other than `C`,
                     identifier keys in strictly ascending order, grids with at least one column, identifier column
                     names, meta absent or non-empty, row keys ascending and among the column names; lexical leaves in
-                    the reader's normal form (`bits = lexBits`, timestamp fields zero).
+                    the reader's normal form (`bits = lexBits`, timestamp fields zero); dates and coordinate
+                    components lexemes C01's round trip covers (`dateOk`, `decTextOk`).
   * `excluded v`  — the shapes the reader can return on which re-encoding is NOT stable (each with a kernel-checked
                     witness text in `Hs.Thm.C11`).
-  * `dupCols v`   — a grid with two columns of the same name occurs in `v`.
-  * `lexLeavesOk v` — every lexical leaf of `v` is a lexeme C01's round trip covers (`wfV` of the leaf).
-  * `image_wf`    — `decV v`, `lexLeavesOk v`, not `excluded v`, not `dupCols v`  ⟹  `wfV (asRead v)` and `lexImg (asRead v) = v`.
+  * `dupCols v`   — a grid with two columns of the same name occurs in `v` (covered: `ZincImageDup*`).
+  * `lexLeavesOk v` — every Number / Time / DateTime leaf of `v` is a lexeme C01's round trip covers (`wfV` of the leaf).
+  * `image_good` (`ZincImageWf`) — `decV v`, `lexLeavesOk v`, not `excluded v`  ⟹  `GoodVG (asRead v)` (the hypotheses
+                    of C01's round trip, column names possibly repeated) and `lexImg (asRead v) = v`.
 -/
 import Hs.Lemmas.ZincLazyReenc
 namespace Hs.Zinc
@@ -71,10 +73,10 @@ def decV : Val → Bool
   | .sym s => isSymBody s
   | .xstr ty _ => isXStrType ty
   | .num n => decide (lexNumI n = n)
-  | .date _ => true
+  | .date d => dateOk d
   | .time _ => true
   | .dateTime t => t.secs == 0 && t.ns == 0 && t.off == 0 && t.zone == [] && t.tzid == []
-  | .coord a b => a.bits == lexBits && b.bits == lexBits
+  | .coord a b => a.bits == lexBits && b.bits == lexBits && decTextOk a.txt && decTextOk b.txt
   | .list xs => decVs xs
   | .dict d => keysIdent d && keysSorted d.keys && decT d
   | .grid md cols rows _ =>
@@ -133,7 +135,7 @@ def exDup (cols : Cols) : Bool := !nodupB cols.names
 def hasVer (v : Val) : Bool := anyGrid (fun _ _ _ ver => exVer ver) v
 /-- `v` contains a single-column grid with a row lacking its cell (known finding Z4) -/
 def hasZ4 (v : Val) : Bool := anyGrid (fun _ cols rows _ => exZ4 cols rows) v
-/-- `v` contains a grid with two columns of the same name -/
+/-- `v` contains a grid with two columns of the same name (NOT an exclusion: `ZincImageDup*` cover it) -/
 def dupCols (v : Val) : Bool := anyGrid (fun _ cols _ _ => exDup cols) v
 
 /-- **the exclusion list**: the two shapes the reader can return on which one re-encode changes the model's value.
@@ -142,9 +144,9 @@ of the value in the property's sense; the writer always writes 3.0, the model's 
 literal statement needs the exclusion (witness `Hs.C11.verText`). -/
 def excluded (v : Val) : Bool := hasVer v || hasZ4 v
 
-/-- the three conditions at one grid node -/
+/-- the two conditions at one grid node -/
 def badNode (_md : OTags) (cols : Cols) (rows : Rows) (ver : List Char) : Bool :=
-  exVer ver || exZ4 cols rows || exDup cols
+  exVer ver || exZ4 cols rows
 
 mutual
 theorem anyGrid_or (P Q : OTags → Cols → Rows → List Char → Bool) :
@@ -188,30 +190,25 @@ theorem anyGridR_or (P Q : OTags → Cols → Rows → List Char → Bool) :
     cases anyGridT P r <;> cases anyGridT Q r <;> cases anyGridR P rs <;> cases anyGridR Q rs <;> rfl
 end
 
-/-- no bad node anywhere = not excluded and no duplicate column names -/
-theorem badNode_false (v : Val) (hx : excluded v = false) (hu : dupCols v = false) : anyGrid badNode v = false := by
+/-- no bad node anywhere = not excluded -/
+theorem badNode_false (v : Val) (hx : excluded v = false) : anyGrid badNode v = false := by
   have h1 : anyGrid badNode v =
-      (anyGrid (fun _ _ _ ver => exVer ver) v || anyGrid (fun _ cols rows _ => exZ4 cols rows) v
-        || anyGrid (fun _ cols _ _ => exDup cols) v) := by
+      (anyGrid (fun _ _ _ ver => exVer ver) v || anyGrid (fun _ cols rows _ => exZ4 cols rows) v) := by
     unfold badNode
-    rw [anyGrid_or (fun _ cols rows ver => exVer ver || exZ4 cols rows) (fun _ cols _ _ => exDup cols),
-      anyGrid_or (fun _ _ _ ver => exVer ver) (fun _ cols rows _ => exZ4 cols rows)]
+    rw [anyGrid_or (fun _ _ _ ver => exVer ver) (fun _ cols rows _ => exZ4 cols rows)]
   rw [h1]
-  simp only [excluded, hasVer, hasZ4, Bool.or_eq_false_iff] at hx
-  simp only [dupCols] at hu
-  simp [hx.1, hx.2, hu]
+  simpa [excluded, hasVer, hasZ4] using hx
 
 /-! ### the lexical leaves -/
 
 mutual
-/-- every Number / Date / Time / DateTime / Coord leaf is a lexeme the round trip of C01 covers (`wfV` of the leaf,
-the timestamp printed as read) -/
+/-- every Number / Time / DateTime leaf is a lexeme the round trip of C01 covers (`wfV` of the leaf, the timestamp
+printed as read).  Date and Coord leaves need no hypothesis: the reader's dates and coordinates ARE such lexemes
+(`ZincImageLeaf`, part of `decV`). -/
 def lexLeavesOk : Val → Bool
   | .num n => numOk n
-  | .date d => dateOk d
   | .time t => timeOk t
   | .dateTime t => dtOk { t with tzid := "UTC".toList }
-  | .coord a b => decTextOk a.txt && decTextOk b.txt
   | .list xs => lexLeavesOks xs
   | .dict d => lexLeavesOkT d
   | .grid md cols rows _ => lexLeavesOkO md && lexLeavesOkC cols && lexLeavesOkR rows
